@@ -76,7 +76,7 @@ def rat(r):
 
 def zero_of(t):
     return {"INT": "int:0", "DOUBLE": "dbl:0", "POINT": "pt:0,0,0", "TENSOR": "tens:0,0,0,0,0,0,0,0,0", "STRING": "str:[]", "VECTOR_DOUBLE": "vec:{}",
-            "VECTOR_INT": "vec:{}"}[t]
+            "VECTOR_INT": "vec:{}", "VECTOR_POINT": "vec:{}", "VECTOR_TENSOR": "vec:{}"}[t]
 
 
 def oracle_families(r, binp, n):
@@ -104,7 +104,8 @@ def oracle_families(r, binp, n):
         elif fam in ("copy_string", "string_empty", "text_string"):
             types = ["STRING"] + [r.choice(scalar_types) for _ in range(r.randrange(0, 3))]
         else:
-            types = ["VECTOR_DOUBLE"] + [r.choice(scalar_types) for _ in range(r.randrange(0, 3))]
+            # every container type in turn (the copy/assign/clear code treats them through one type switch)
+            types = [["VECTOR_DOUBLE", "VECTOR_INT", "VECTOR_POINT", "VECTOR_TENSOR"][(k // 11) % 4]] + [r.choice(scalar_types) for _ in range(r.randrange(0, 3))]
         pers = [r.random() < 0.4 for _ in types]
         if fam == "layout":
             types = [r.choice(list(SIZES)) for _ in range(r.randrange(3, 9))]
@@ -129,10 +130,11 @@ def oracle_families(r, binp, n):
         vals = []
         for i, t in enumerate(types):
             if t.startswith("VECTOR"):
-                elems = [rat(r) for _ in range(r.randrange(1, 4))]
+                et = {"VECTOR_DOUBLE": "DOUBLE", "VECTOR_INT": "INT", "VECTOR_POINT": "POINT", "VECTOR_TENSOR": "TENSOR"}[t]
+                elems = [val_tok(et, r) for _ in range(r.randrange(1, 4))]
                 for e in elems:
-                    emit("push 0 %d dbl:%s" % (i, e))
-                vals.append("vec:{" + ";".join("dbl:" + e for e in elems) + "}")
+                    emit("push 0 %d %s" % (i, e))
+                vals.append("vec:{" + ";".join(elems) + "}")
             elif fam == "string_empty" and t == "STRING":
                 vals.append("str:[]")
             else:
@@ -165,7 +167,7 @@ def oracle_families(r, binp, n):
             j = 0
             t = types[0]
             if t.startswith("VECTOR"):
-                emit("push 0 0 dbl:99")
+                emit("push 0 0 %s" % {"VECTOR_DOUBLE": "dbl:99", "VECTOR_INT": "int:99", "VECTOR_POINT": "pt:99,0,1", "VECTOR_TENSOR": "tens:99,0,0,0,1,0,0,0,1"}[t])
             else:
                 nv = val_tok(t, r) if t != "STRING" else "str:[a_much_longer_string_than_before_to_force_reallocation_0123456789]"
                 emit("set 0 0 %s" % nv)
